@@ -27,7 +27,7 @@ EXTENDS Integers, Sequences, FiniteSets, TLC, Json
 
 CONSTANTS TokKinds,   \* token kinds to enumerate (subset of AllToks)
           MaxLen,     \* longest token sequence
-          H1s, H2s,   \* first h1: none / title / short / long; h2: none / title
+          H1s, H2s,   \* first h1: none / title / short / long; h2: none / title / long (other words)
           Markups,    \* markup title: none / og / schema / ie
           Dump
 
@@ -38,8 +38,9 @@ HierToks  == {"slash", "bslash", "gt", "raquo"}
 AllToks   == WordToks \cup ColonToks \cup SepToks \cup {"hy"}
 AllH1s    == {"none", "title", "short", "long"}
 AllH2s    == {"none", "title"}
+KnownH2s  == AllH2s \cup {"long"}       \* "long": an h2 with other words (it must never become the title)
 AllMarkups == {"none", "og", "schema", "ie"}
-ASSUME TokKinds \subseteq AllToks /\ H1s \subseteq AllH1s /\ H2s \subseteq AllH2s /\ Markups \subseteq AllMarkups
+ASSUME TokKinds \subseteq AllToks /\ H1s \subseteq AllH1s /\ H2s \subseteq KnownH2s /\ Markups \subseteq AllMarkups
 
 \* ---- atoms ---------------------------------------------------------------
 SP        == [k |-> "sp", n |-> 1, t |-> 0, p |-> 0]
